@@ -9,6 +9,7 @@ import (
 	"fmt"
 	"os"
 	"path/filepath"
+	"strings"
 	"sync"
 	"time"
 
@@ -130,6 +131,133 @@ func checkC04(c *Ctx) {
 	cases := ntCases(c.Pick(4, 5))
 	Parallel(len(cases), 8, func(i int) { runC04Ceremony(c, cases[i].N, cases[i].T, c.Seed*137+uint64(i)) })
 	runC04RoundPairs(c)
+	// (e) ceremonies with a dealer whose broadcast commitments contradict its deals: the honest machines
+	// answer with error results, which are searched like every other result
+	var fj []struct {
+		n, t, D int
+		kind    string
+	}
+	for _, nt := range []ntCase{{3, 2}, {2, 2}, {4, 3}}[:c.Pick(2, 3)] {
+		for _, k := range []string{"commitments-swapped", "commitments-of-another-dealer", "commitments-shortened", "commitments-lengthened"} {
+			for D := 0; D < nt.N; D++ {
+				if !c.Thorough() && D != (len(fj)+int(c.Seed))%nt.N {
+					continue
+				}
+				fj = append(fj, struct {
+					n, t, D int
+					kind    string
+				}{nt.N, nt.T, D, k})
+			}
+		}
+	}
+	Parallel(len(fj), 8, func(i int) { runC04Faulty(c, fj[i].n, fj[i].t, fj[i].D, fj[i].kind, c.Seed*149+uint64(i)) })
+}
+
+// runC04Faulty: dealer D's broadcast commitment list is rewritten between its machine and its node.
+func runC04Faulty(c *Ctx, n, t, D int, kind string, seed uint64) {
+	wit := map[string]interface{}{"n": n, "t": t, "faulty_dealer": D, "kind": kind, "case_seed": seed}
+	w, err := world.NewWorld(world.Options{N: n, T: t, Seed: seed})
+	if err != nil {
+		c.Inconclusive("world: %v", err)
+		return
+	}
+	ce := &Ceremony{W: w, N: n, T: t}
+	defer ce.Close()
+	suite := oracle.NewSuite()
+	var needles []needle
+	for _, nd := range w.Nodes {
+		sd := oracle.SeedFromMnemonic(nd.Mnemonic)
+		sk := oracle.LongTermKey(sd)
+		if !suite.Point().Mul(sk, nil).Equal(nd.Cold.GetPubKey()) {
+			c.Inconclusive("long-term key of %s does not validate against GetPubKey", nd.Name)
+			return
+		}
+		needles = append(needles, needle{"long-term-private-key", oracle.ScalarBytes(sk)}, needle{"seed", sd})
+		for k, co := range oracle.DealerPoly(sd, t).Coefficients() {
+			needles = append(needles, needle{fmt.Sprintf("dealer-polynomial-coefficient-%d", k), oracle.ScalarBytes(co)})
+		}
+	}
+	type captured struct {
+		node     int
+		typ, evt string
+		res      []byte
+	}
+	var mu sync.Mutex
+	var caps []captured
+	var otherCommit []byte
+	applied := false
+	suite2 := oracle.NewSuite() // used inside the hook only (one goroutine drives the world)
+	w.ResultHook = func(nd *world.Node, req, res *types.Operation) *types.Operation {
+		if string(req.Type) == OpCommits && len(res.ResultMsgs) == 1 {
+			var r requests.DKGProposalCommitConfirmationRequest
+			if json.Unmarshal(res.ResultMsgs[0].Data, &r) == nil {
+				mu.Lock()
+				if nd.Idx != D && otherCommit == nil {
+					otherCommit = append([]byte{}, r.Commit...)
+				}
+				oc := otherCommit
+				mu.Unlock()
+				var cs [][]byte
+				if nd.Idx == D && json.Unmarshal(r.Commit, &cs) == nil && len(cs) > 0 {
+					switch kind {
+					case "commitments-swapped":
+						cs[0], cs[len(cs)-1] = cs[len(cs)-1], cs[0]
+						r.Commit, _ = json.Marshal(cs)
+					case "commitments-of-another-dealer":
+						// the other dealer's commitment vector, computed from its re-derived polynomial
+						_ = oc
+						o := w.Nodes[(D+1)%n]
+						r.Commit, _ = json.Marshal(oracle.CommitsBytes(oracle.DealerPoly(oracle.SeedFromMnemonic(o.Mnemonic), t).Commit(suite2.Point().Base())))
+					case "commitments-shortened":
+						r.Commit, _ = json.Marshal(cs[:len(cs)-1])
+					case "commitments-lengthened":
+						r.Commit, _ = json.Marshal(append(cs, cs[0]))
+					}
+					res.ResultMsgs[0].Data, _ = json.Marshal(r)
+					applied = true
+				}
+			}
+		}
+		bz, _ := json.Marshal(res)
+		mu.Lock()
+		caps = append(caps, captured{nd.Idx, string(req.Type), string(res.Event), bz})
+		mu.Unlock()
+		return res
+	}
+	ce.Round, err = w.StartDKG(0, t, now())
+	if err != nil {
+		c.Inconclusive("start: %v", err)
+		return
+	}
+	if _, q := w.Run(world.RandomPolicy, 6000); !q {
+		c.Inconclusive("faulty-dealer ceremony not quiescent: %v", wit)
+		return
+	}
+	if !applied {
+		c.Inconclusive("deviation %s never applied: %v", kind, wit)
+		return
+	}
+	errResults := 0
+	for _, cp := range caps {
+		if strings.Contains(cp.evt, "error") || strings.Contains(cp.evt, "canceled") {
+			errResults++
+			c.Distinct(fmt.Sprintf("error-result|%s|%s|%s", kind, cp.typ, cp.evt))
+		}
+		parts := searchNeedles(c, fmt.Sprintf("result of %s (event %s) from machine %d in a ceremony whose dealer %d broadcast %s", cp.typ, cp.evt, cp.node, D, kind), cp.res, needles, wit)
+		c.Eval(1)
+		c.Add("decoded_blobs_searched", parts)
+	}
+	// what reached the board is what the operators uploaded: search it as well
+	for _, m := range w.Board.All() {
+		bz, _ := json.Marshal(m)
+		c.Add("decoded_blobs_searched", searchNeedles(c, fmt.Sprintf("board message %d (%s by %s)", m.Offset, m.Event, m.SenderAddr), bz, needles, wit))
+		c.Eval(1)
+	}
+	c.Add("error_results_searched", errResults)
+	c.Distinct(fmt.Sprintf("faulty-dealer|n%d t%d|%s", n, t, kind))
+	if errResults == 0 {
+		c.Note("faulty dealer %d (%s, n=%d t=%d): no machine answered with an error result (states %v)", D, kind, n, t, ce.States())
+	}
 }
 
 func runC04Ceremony(c *Ctx, n, t int, seed uint64) {
